@@ -4,6 +4,8 @@ import LdarModel.Props.C02
 import LdarModel.Props.C03
 import LdarModel.Props.C04
 import LdarModel.Props.C05
+import LdarModel.Props.C06
+import LdarModel.Props.C07
 import LdarModel.Props.C08
 import LdarModel.Props.C09
 import LdarModel.Props.C10
